@@ -20,7 +20,7 @@ pub struct ArrCase {
 }
 
 pub fn full_gen(tmax: u64) -> ArrGen {
-    ArrGen { tmax, never: true, plateau_end: true, plain_curves: true, derived: true, acp: true, loose: true, depth: 3 }
+    ArrGen { tmax, never: true, plateau_end: true, plain_curves: true, derived: true, acp: true, loose: true, poisson: true, depth: 3 }
 }
 
 fn arr_case_strategy(tier: Tier) -> BoxedStrategy<ArrCase> {
@@ -123,6 +123,12 @@ fn check_arr(c: &ArrCase) -> CheckResult {
     Ok(out)
 }
 
+pub fn decode_arr_case(d: &mut crate::dec::Dec) -> ArrCase {
+    use crate::dec::*;
+    let g = DecArr { tmax: 30, never: true, derived: true, acp: true };
+    ArrCase { spec: dec_arr(d, g, 3), horizon: d.range(20, 399) }
+}
+
 // --- request bounds ---------------------------------------------------------
 
 #[derive(Clone, Debug, Serialize, Deserialize)]
@@ -142,13 +148,22 @@ pub struct RbCase {
 }
 
 pub fn no_acp_gen(tmax: u64) -> ArrGen {
-    ArrGen { tmax, never: true, plateau_end: true, plain_curves: true, derived: true, acp: false, loose: false, depth: 2 }
+    ArrGen { tmax, never: true, plateau_end: true, plain_curves: true, derived: true, acp: false, loose: false, poisson: false, depth: 2 }
 }
 
 fn rb_case_strategy(tier: Tier) -> BoxedStrategy<RbCase> {
     let g = ArrGen { acp: true, ..no_acp_gen(tier.pick(30, 60)) };
     (
-        proptest::collection::vec((arr_strategy(g), cost_strategy(9, false)), 1..=4),
+        proptest::collection::vec(
+            (
+                arr_strategy(g),
+                prop_oneof![
+                    9 => cost_strategy(9, false),
+                    1 => proptest::collection::vec(prop_oneof![1 => Just(0u64), 2 => 0u64..=9], 1..=4).prop_map(|costs| CostSpec::Multiframe { costs }),
+                ],
+            ),
+            1..=4,
+        ),
         prop_oneof![Just(Nest::Single), Just(Nest::Aggregate), Just(Nest::Slice), Just(Nest::Nested)],
         20u64..300,
     )
@@ -210,7 +225,27 @@ fn check_rb(c: &RbCase) -> CheckResult {
             (1..=n).all(|k| cm.cost_of_jobs(k) > cm.cost_of_jobs(k - 1))
         });
         if ok != Ok(true) {
-            out.label("zero-cost-job(precondition unmet, skipped)");
+            // With zero-cost jobs the "iff" is not claimed, but the documented contract of
+            // RequestBound::steps_iter ("yields every value of delta such that the demand increases")
+            // still is: every increase point must be among the yielded steps.
+            let got = guard(|| with_nested(&comps, &c.nest, |rb| pull_steps(rb.steps_iter(), h)))
+                .map_err(|e| format!("steps_iter panicked: {}", e))?;
+            let acp = comps.iter().any(|(a, _)| a.exposes_direct_acp());
+            for x in 1..=h {
+                if vals[x as usize] > vals[x as usize - 1] && !got.contains(&x) {
+                    let msg = format!(
+                        "the demand increases at delta={} ({} -> {}) but steps_iter up to {} yields {:?}... (zero-cost jobs present)",
+                        x,
+                        vals[x as usize - 1],
+                        vals[x as usize],
+                        h,
+                        &got[..got.len().min(12)]
+                    );
+                    let _ = acp;
+                    return Err(msg);
+                }
+            }
+            out.label("zero-cost-job(superset check only)");
             return Ok(out);
         }
     }
@@ -253,7 +288,7 @@ pub fn def() -> PropertyDef {
             "delta-min prefixes end with a positive distance; ArrivalCurvePrefix horizon >= 1 and steps realisable (first step at delta = 1)".into(),
         ],
         subchecks: vec![
-            subcheck("arrival", (12_000, 200_000), arr_case_strategy, check_arr),
+            subcheck("arrival", (12_000, 200_000), arr_case_strategy, check_arr).with_decoder(decode_arr_case, check_arr),
             subcheck("request-bound", (4000, 80_000), rb_case_strategy, check_rb),
         ],
         extra: None,
